@@ -53,12 +53,12 @@ def run_demo(scratch, d, env):
             if os.path.exists(os.path.join(d, "demo.rs")) and "cp " not in open(os.path.join(d, "demo.sh")).read():
                 placed = os.path.join(scratch, "tests", "demo.rs")
                 shutil.copy(os.path.join(d, "demo.rs"), placed)
-            p = subprocess.run(["bash", "-c", f"sh _out/{idx}/demo.sh . > _out/demo.log 2>&1; echo $? > _out/demo.rc"], cwd=scratch, env=env)
+            p = subprocess.run(["bash", "-c", f"sh _out/{idx}/demo.sh {scratch} > _out/demo.log 2>&1; echo $? > _out/demo.rc"], cwd=scratch, env=env)
             rc = int(open(os.path.join(scratch, "_out", "demo.rc")).read().strip() or 1)
             out = open(os.path.join(scratch, "_out", "demo.log")).read()
             if placed and os.path.exists(placed):
                 os.remove(placed)
-            return True, rc == 0, out[-600:]
+            return True, rc == 0 and "test result: FAILED" not in out, out[-600:]
         if os.path.exists(os.path.join(d, "demo.rs")):
             shutil.copy(os.path.join(d, "demo.rs"), os.path.join(scratch, "tests", "zz_demo.rs"))
             rc, out = sh(f"cargo test --offline {extra} --test zz_demo 2>&1 | tail -15", scratch, env)
